@@ -282,7 +282,7 @@ def items_of(g):
         out.append(it('130400|DCM', 'CODE', 'CONTAINS', code(g['geometric_purpose'])))
     ref = g['ref']
     t = ref['type']
-    src_kid = lambda s: it('260753009|SCT', 'IMAGE', 'SELECTED FROM', ref=s)   # noqa: E731
+    src_kid = lambda s: {'name': '260753009|SCT', 'vt': 'IMAGE', 'rel': 'SELECTED FROM', 'ref': list(s)}   # noqa: E731
     if t == 'region2d':
         out.append(it('111030|DCM', 'SCOORD', 'CONTAINS', graphic=ref['graphic'], kids=[src_kid(ref['source'])]))
     elif t == 'region3d':
